@@ -136,6 +136,38 @@ def correspondence(ctx):
         viol.append({"name": "fields-model", "found_input": False, "key": "fields-model",
                      "payload": {"broken": f"generated model and implementation disagree on {nd} field/id cases"}})
     streams["fields_and_ids"] = {"cases": len(reqs), "impl_wrong": nb, "model_disagrees": nd, "exhaustive": thorough}
+
+    # --- every entry point that takes a nuclide, with data-set nuclides in every spelling
+    import numpy as np, os
+    import corr_units as U
+    d = np.load(os.path.join(C.REPO, "radioactivedecay/icrp107_ame2020_nubase2020/decay_data.npz"), allow_pickle=True)
+    names = [str(x) for x in d["nuclides"]]
+    prog = {n: [str(x) for x in pl if str(x) != "SF"] for n, pl in zip(names, d["progeny"])}
+    parents = {}
+    for n, pl in prog.items():
+        for c in pl:
+            parents.setdefault(c, []).append(n)
+    pick = rng.sample(names, 400 if thorough else 40)
+    cases = []
+    for n in pick:
+        el, rest = n.split("-")
+        a = "".join(ch for ch in rest if ch.isdigit())
+        st = rest[len(a):]
+        sps = N.spell_forms(el, int(a), st) + [N.expected_id(el, int(a), st)]
+        cases.append({"name": n, "spellings": sps, "progeny": prog[n][:2], "parents": parents.get(n, [])[:2]})
+    res = U.run_impl("impl_api_spell.py", cases, timeout=3000)
+    streams["api_spellings"] = {"cases": res["cases"], "impl_wrong": len(res["bad"]),
+                                "what": "Nuclide, Inventory/InventoryHP keys, add, remove, remove(list), half_life, branching_fraction, decay_mode "
+                                        "(parent and progeny argument), read_csv x 7 spellings + id of data-set nuclides"}
+    seen = set()
+    for label, sp, name, why in res["bad"]:
+        if label in seen:
+            continue
+        seen.add(label)
+        viol.append({"name": f"api-{len(seen)}", "found_input": True, "key": f"api:{label}:{sp}",
+                     "payload": {"fails": f"{label} with the spelling {sp} of {name} {why}", "input": sp, "canonical": name, "entry": label}})
+        if len(seen) >= 4:
+            break
     return {"streams": streams, "violations": viol, "samples": samples, "notes": notes}
 
 
